@@ -1,5 +1,61 @@
-(* C08 — quasiseparable kernels' structured forms equal their pointwise values (statements only). *)
+(* C08 — quasiseparable kernels' structured forms equal their pointwise values (statements only).
+   Generic in the kernel: any (m, h, Pinf, A, strict order test) satisfying the laws `ss_laws`
+   (A is the identity between points with equal sortable value; A(y,z) A(x,y) = A(x,z) for x <= y <= z; Pinf symmetric),
+   which C18 establishes for the built-in kernels and their sums / products / scalings.
+   Any field, any coordinate type (scalars or structured), every n, ties allowed. *)
 From mathcomp Require Import all_ssreflect all_algebra.
 From TinyGP Require Import Base.Ops Base.LMat Model.QSMCore Model.General Model.SSKernel
-  Theory.MxRefine Theory.QSMDen Theory.QSMMatmul.
+  Theory.MxRefine Theory.QSMDen Theory.QSMMatmul Theory.GeneralThy Theory.SSK Theory.SSKGeneral.
 Set Implicit Arguments. Unset Strict Implicit. Unset Printing Implicit Defensive.
+Import GRing.Theory.
+Local Open Scope ring_scope.
+
+Section C08.
+Variable F : fieldType.
+Variables (sq : F -> F) (lt : F -> F -> bool).
+Notation fops := (fops sq lt).
+Variables (X : Type) (k : sskernel F X).
+Hypothesis laws : ss_laws k.
+
+(* symmetric form on sorted inputs (ties allowed, n >= 1 arbitrary; n = 1 included) *)
+Theorem C08_symm_qsm_pointwise (x0 : X) (xs : seq X) :
+  (forall i j, (i <= j)%N -> (j < size xs)%N -> sle k (nth x0 xs i) (nth x0 xs j)) ->
+  forall i j : 'I_(size xs),
+  den (size xs) (to_symm_qsm fops k x0 xs) i j = ss_evaluate fops k (nth x0 xs i) (nth x0 xs j).
+Proof. move=> srt i j; exact: (symm_qsm_pointwise sq lt laws srt). Qed.
+
+(* the kernel function is symmetric, and its diagonal evaluation is evaluate x x *)
+Theorem C08_evaluate_symmetric : (forall x y, sslt k x y -> ~~ sslt k y x) ->
+  forall x y, ss_evaluate fops k x y = ss_evaluate fops k y x.
+Proof. move=> asym x y; exact: (evaluate_symmetric sq lt laws asym). Qed.
+Theorem C08_diag_pointwise x : sle k x x -> ss_evaluate_diag fops k x = ss_evaluate fops k x x.
+Proof. exact: (diag_pointwise sq lt laws). Qed.
+
+(* rectangular form: sorted X2, ARBITRARY X1 (before / between / equal to / after the points of X2) *)
+Theorem C08_general_qsm_pointwise (x0 : X) (x1s x2s : seq X) :
+  (forall x y, sslt k x y -> ~~ sslt k y x) ->
+  (forall x y z, sle k x y -> sle k y z -> sle k x z) ->
+  (forall i j, (i <= j)%N -> (j < size x2s)%N -> sle k (nth x0 x2s i) (nth x0 x2s j)) ->
+  forall (i : 'I_(gn1 (to_general_qsm fops k x0 x1s x2s))) (j : 'I_(gn2 (to_general_qsm fops k x0 x1s x2s))),
+  gden (to_general_qsm fops k x0 x1s x2s) i j = ss_evaluate fops k (nth x0 x1s i) (nth x0 x2s j).
+Proof. move=> asym tr srt i j; exact: (general_qsm_pointwise laws asym tr srt). Qed.
+
+(* fast kernel-vector products, both dispatch branches, any right-hand-side width *)
+Theorem C08_kernel_matmul_general (x0 : X) (x1s x2s : seq X) c (y : mat F) :
+  (forall x y, sslt k x y -> ~~ sslt k y x) ->
+  (forall x y z, sle k x y -> sle k y z -> sle k x z) ->
+  (forall i j, (i <= j)%N -> (j < size x2s)%N -> sle k (nth x0 x2s i) (nth x0 x2s j)) ->
+  mx_of (size x1s) c (ss_matmul fops k c x0 x1s (Some x2s) y)
+  = Kcross sq lt k x0 x1s x2s *m mx_of (size x2s) c y.
+Proof. move=> asym tr srt; exact: (kernel_matmul_general sq lt laws asym tr x1s srt). Qed.
+Theorem C08_kernel_matmul_symm (x0 : X) (xs : seq X) c (y : mat F) :
+  (forall i j, (i <= j)%N -> (j < size xs)%N -> sle k (nth x0 xs i) (nth x0 xs j)) ->
+  mx_of (size xs) c (ss_matmul fops k c x0 xs None y) = Kself sq lt k x0 xs *m mx_of (size xs) c y.
+Proof. move=> srt; exact: (kernel_matmul_symm sq lt laws srt). Qed.
+End C08.
+Print Assumptions C08_symm_qsm_pointwise.
+Print Assumptions C08_evaluate_symmetric.
+Print Assumptions C08_diag_pointwise.
+Print Assumptions C08_general_qsm_pointwise.
+Print Assumptions C08_kernel_matmul_general.
+Print Assumptions C08_kernel_matmul_symm.
